@@ -1053,8 +1053,18 @@ pub fn make_world(plan: &CasePlan, seed: u64, idx: u64) -> (World, &'static str,
             w.s5 = Some(S5 { program_b: b, sched_seed: p.next_u64(), schedule: None });
         }
         _ => {
-            // sweep: subject only; the enumeration happens in run_sweep
-            w.program = Some(ProgSpec { name: "small".into(), src: gen::small_program(&mut p), consts: vec![] });
+            // sweep: subject only; the enumeration happens in run_sweep. Prefer a subject that can be
+            // exported (no input wire among the outputs) and is small enough to be swept completely.
+            let mut chosen = None;
+            for _ in 0..12 {
+                let cand = ProgSpec { name: "small".into(), src: gen::small_program(&mut p), consts: vec![] };
+                let ok = reference_export(&cand, dedup, keys).map(|(b, _, _)| b.len() <= 4096).unwrap_or(false);
+                chosen = Some(cand);
+                if ok {
+                    break;
+                }
+            }
+            w.program = chosen;
         }
     }
     (w, family, p)
